@@ -218,6 +218,48 @@ def run(v):
         if (calls.canon(S[i]), calls.canon(S[j])) not in seen_pairs:
             v.violation("C16.preempt.dense", {"A": names[i], "B": names[j], "warm": w, "A_result": r["apreview"], "B_results": r["b"], "first_split": r.get("first_split")},
                         {"check": "C16", "A": S[i], "B": S[j], "mode": "dense", "warm": w}, {"clause": "C16.preempt"})
+    # ---- evicting caches: a long sweep over all faces shows whether any shared dict ever drops entries; if one does,
+    # the state just before the eviction is rebuilt and a call whose entry is cached is preempted, at every shared
+    # access, by the call that evicts
+    ser, org, utils = cells.api()
+    import a5
+    sweep_cells = ser.cell_to_children(0, 2) + ser.cell_to_children(0, 3)[::7]
+    rng.shuffle(sweep_cells)
+    sweep = []
+    for c in sweep_cells:
+        ll = a5.cell_to_lonlat(c)
+        sweep.append(["lonlat_to_cell", hx(ll[0]), hx(ll[1]), ser.get_resolution(c)])
+        sweep.append(["cell_to_lonlat", "%016x" % c])
+    sw = parallel([{"fn": "sweep", "args": [sweep]}], nproc=1)[0]
+    v.cov["cache_evictions_seen_in_sweep"] = len(sw["evictions"])
+    ejobs, emeta = [], []
+    for (n, loc) in sw["evictions"][:3]:
+        prefix, Bd = sweep[:n], sweep[n]
+        for back in (1, 2, 3, 5, 9, n):
+            if n - back < 0:
+                continue
+            Ad = sweep[n - back]
+            for kk in range(1, 140):
+                ejobs.append({"fn": "single_after", "args": [prefix, Ad, Bd, kk, "access"]})
+                emeta.append((prefix, Ad, Bd, kk))
+    if ejobs:
+        refs = {}
+        for (prefix, Ad, Bd, kk) in emeta:
+            key = (len(prefix), calls.canon(Ad))
+            if key not in refs:
+                refs[key] = None
+        rjobs = [{"fn": "seq_after", "args": [sweep[:n_], json.loads(json.dumps(Ad_))]} for (n_, Ad_) in {(len(p_), json.dumps(a_)): (len(p_), a_) for (p_, a_, b_, k_) in emeta}.values()]
+        rres = parallel(rjobs, nproc=8)
+        for jb, rr in zip(rjobs, rres):
+            refs[(len(jb["args"][0]), calls.canon(jb["args"][1]))] = rr["a"]
+        eres = parallel(ejobs, nproc=14)
+        for (prefix, Ad, Bd, kk), r in zip(emeta, eres):
+            want = refs[(len(prefix), calls.canon(Ad))]
+            if r["a"] != want:
+                v.violation("C16.preempt.evict", {"A": calls.canon(Ad)[:80], "B": calls.canon(Bd)[:80], "after_calls": len(prefix), "k": kk,
+                                                  "A_result": r["apreview"], "what": "A had checked a shared cache for its entry; B (the call that makes the cache evict) ran at A's k-th shared access"},
+                            {"check": "C16", "mode": "evict", "prefix": prefix, "A": Ad, "B": Bd, "k": kk}, {"clause": "C16.preempt"})
+        v.traces += len(ejobs)
     # ---- real threads, 1 microsecond switch interval
     tres = parallel([{"fn": "threads", "args": [S, 8, (250 if quick else 6000), 1e-6]}], nproc=1)[0]
     if tres["nbad"]:
@@ -241,13 +283,17 @@ def run(v):
 def replay(v, obj):
     fr = fresh.Fresh()
     try:
-        ref = fr.run([{"fn": "seq", "args": [obj["A"], None]}, {"fn": "seq", "args": [obj["B"], None]}]) if obj.get("mode") != "threads" else None
+        ref = fr.run([{"fn": "seq", "args": [obj["A"], None]}, {"fn": "seq", "args": [obj["B"], None]}]) if obj.get("mode") not in ("threads", "evict") else None
         if obj["mode"] == "single":
             r = fr.run([{"fn": "single", "args": [obj["A"], obj["B"], obj["k"], obj["warm"], obj["gran"]]}])[0]
             bad = r["a"] != ref[0]["a"] or (r["b"] is not None and r["b"] != ref[1]["a"])
         elif obj["mode"] == "dense":
             r = fr.run([{"fn": "dense", "args": [obj["A"], obj["B"], obj["warm"]]}])[0]
             bad = r["a"] != ref[0]["a"] or not set(r["b"].keys()) <= {ref[1]["a"]}
+        elif obj["mode"] == "evict":
+            ref = fr.run([{"fn": "seq_after", "args": [obj["prefix"], obj["A"]]}])
+            r = fr.run([{"fn": "single_after", "args": [obj["prefix"], obj["A"], obj["B"], obj["k"], "access"]}])[0]
+            bad = r["a"] != ref[0]["a"]
         elif obj["mode"] == "threads":
             r = fr.run([{"fn": "threads", "args": [obj["shapes"], 8, 2000, 1e-6]}])[0]
             bad = r["nbad"] > 0
